@@ -81,6 +81,12 @@ func (c *FnCtx) autoAxioms() {
 		if fn == nil {
 			continue
 		}
+		// A proved (non-trusted) auto lemma is not available to its own proof (it recurses by contract,
+		// with a variant) nor to the proofs of auto lemmas that come before it in key order: the
+		// dependency between proved lemmas is thus well-founded.
+		if ct.Trusted == "" && c.contract != nil && c.contract.Auto && c.contract.Trusted == "" && k >= c.contract.Key {
+			continue
+		}
 		var vars []*Term
 		var args []Value
 		ok := true
@@ -99,6 +105,19 @@ func (c *FnCtx) autoAxioms() {
 			c.unsupported("auto axiom %s has a parameter of static-only type", k)
 			continue
 		}
+		pre := f.True()
+		for _, rq := range ct.Requires {
+			st := &State{R: f.True(), heap: map[string]*Term{}, alpha: c.alpha0}
+			cond, rok := c.evalClause(rq.FnName, ct.PkgPath, args, st, nil)
+			if !rok {
+				ok = false
+				break
+			}
+			pre = f.And(pre, cond)
+		}
+		if !ok {
+			continue
+		}
 		for _, en := range ct.Ensures {
 			st := &State{R: f.True(), heap: map[string]*Term{}, alpha: c.alpha0}
 			body, bok := c.evalClause(en.FnName, ct.PkgPath, args, st, nil)
@@ -106,7 +125,7 @@ func (c *FnCtx) autoAxioms() {
 				continue
 			}
 			// side conditions produced while evaluating (type invariants of opaque results) are part of the fact
-			body = f.And(st.R, body)
+			body = f.Implies(pre, f.And(st.R, body))
 			if len(vars) == 0 {
 				c.termAxioms = append(c.termAxioms, body)
 				continue
@@ -188,6 +207,13 @@ func (e *Engine) VerifyFunction(key string) (res *FnResult) {
 	for _, rq := range ct.Requires {
 		cond, _ := c.evalClause(rq.FnName, ct.PkgPath, cargs, st, nil)
 		c.assume(st, cond)
+	}
+	if ct.Dec != nil {
+		if dfn := c.lookupSynthetic(ct.PkgPath, ct.Dec.FnName); dfn != nil {
+			if d, ok := c.evalGhost(dfn, cargs, st.clone(), nil).(*Term); ok {
+				c.topDec = d
+			}
+		}
 	}
 	if ct.Assigns != nil {
 		c.hasFrame = true
